@@ -313,6 +313,18 @@ func (w *gvWorld) apply(ovl *overlaydb.OverlayDB, s gvAct) gvRes {
 	case "WithdrawFee":
 		p := &gov.WithdrawFeeParam{Address: who}
 		return w.call(ovl, w.gc, gov.WITHDRAW_FEE, common.SerializeToBytes(p), who)
+	case "SetGas": // setGasAddress: x = 1 the account "dapp", x = 0 the empty address
+		ga := &gov.GasAddress{}
+		if s.X == 1 {
+			ga.Address = a["dapp"]
+		}
+		return w.call(ovl, w.gc, gov.SET_GAS_ADDRESS, common.SerializeToBytes(ga), a["admin"])
+	case "SetDappFee": // updateGlobalParam2 with the configuration's other fields
+		gp2 := &gov.GlobalParam2{MinAuthorizePos: 500, CandidateFeeSplitNum: 49, DappFee: uint32(s.X)}
+		if w.cfg.MinAuthPos != 0 {
+			gp2.MinAuthorizePos, gp2.CandidateFeeSplitNum = w.cfg.MinAuthPos, w.cfg.SplitNum
+		}
+		return w.call(ovl, w.gc, gov.UPDATE_GLOBAL_PARAM2, gvSer(func(k *common.ZeroCopySink) { vhMust(gp2.Serialization(k)) }), a["admin"])
 	case "TransferPenalty":
 		p := &gov.TransferPenaltyParam{PeerPubkey: pk, Address: who}
 		return w.call(ovl, w.gc, gov.TRANSFER_PENALTY, common.SerializeToBytes(p), a["admin"])
@@ -364,6 +376,8 @@ type gvObs struct {
 	SplitFee uint64            `json:"splitFee"`
 	Attr     map[string]gvAttr `json:"attr"`
 	Black    []string          `json:"black"`
+	DappFee  uint32            `json:"dappFee"`
+	HasDapp  bool              `json:"hasDapp"`
 }
 
 func (w *gvWorld) an(a common.Address) string {
@@ -463,6 +477,16 @@ func (w *gvWorld) observe(ovl *overlaydb.OverlayDB, o *gvObs) {
 		vhMust(bl.Deserialization(common.NewZeroCopySource(gvRaw(v))))
 		o.Black = append(o.Black, w.pn(bl.PeerPubkey))
 	})
+	if v, err := cache.Get(nutils.ConcatKey(w.gc, []byte(gov.GLOBAL_PARAM2))); err == nil && v != nil {
+		var g2 gov.GlobalParam2
+		vhMust(g2.Deserialization(common.NewZeroCopySource(gvRaw(v))))
+		o.DappFee = g2.DappFee
+	}
+	if v, err := cache.Get(nutils.ConcatKey(w.gc, []byte(gov.GAS_ADDRESS))); err == nil && v != nil {
+		var ga gov.GasAddress
+		vhMust(ga.Deserialization(common.NewZeroCopySource(gvRaw(v))))
+		o.HasDapp = ga.Address != common.ADDRESS_EMPTY
+	}
 	sort.Strings(o.Black)
 	sort.Slice(o.Au, func(i, j int) bool { return o.Au[i].P+"/"+o.Au[i].A < o.Au[j].P+"/"+o.Au[j].A })
 	for name, ad := range w.addr {
@@ -541,7 +565,8 @@ func TestVerifGovTrace(t *testing.T) {
 	}
 	holders := []string{"a1", "a2", "o1", "o2"}
 	names := []string{"Register", "SetMax", "Authorize", "Authorize", "Authorize", "UnAuthorize", "UnAuthorize", "Withdraw", "Withdraw",
-		"Quit", "Black", "White", "Commit", "Commit", "Commit", "AddInit", "ReduceInit", "SetCost", "Fee", "Fee", "WithdrawFee", "TransferPenalty"}
+		"Quit", "Black", "White", "Commit", "Commit", "Commit", "AddInit", "ReduceInit", "SetCost", "Fee", "Fee", "WithdrawFee", "TransferPenalty",
+		"SetGas", "SetDappFee"}
 	h0 := w.height
 	for ti := 0; ti < in.NTraces; ti++ {
 		w.height = h0
@@ -587,6 +612,18 @@ func TestVerifGovTrace(t *testing.T) {
 					s.A = owner[s.P]
 					s.X = uint64(rng.Intn(102))
 					s.Y = uint64(rng.Intn(102))
+				case "SetGas":
+					s.P = ""
+					s.X = uint64(rng.Intn(3) & 1)
+					if rng.Intn(2) == 0 { // keep the admin calls rarer
+						s.Name, s.X = "Commit", 0
+					}
+				case "SetDappFee":
+					s.P = ""
+					s.X = []uint64{0, 20, 50, 100}[rng.Intn(4)]
+					if rng.Intn(2) == 0 {
+						s.Name, s.X = "Commit", 0
+					}
 				case "Fee":
 					s.P = ""
 					s.X = in.Fees[rng.Intn(len(in.Fees))]
